@@ -7,6 +7,7 @@ import (
 	"sync"
 
 	"github.com/AdguardTeam/urlfilter"
+	"github.com/AdguardTeam/urlfilter/filterutil"
 	"github.com/AdguardTeam/urlfilter/rules"
 
 	"verif/enum"
@@ -19,7 +20,9 @@ var (
 	c18Addrs    = []string{"0.0.0.0", "127.0.0.1", "::", "::1", "::ffff:1.2.3.4", "fe80::1", ""} // "" = bare-domain form
 	c18Seps     = []string{" ", "\t", "  ", " \t"}
 	c18Names    = []string{"example.org", "a.b.test", "x-1.test"}
-	c18Comments = []string{"", "#c", " #c", "\t#c", " # c x", " ## c", "#", " #", "  # 0.0.0.0 other.test", " # see https://example.com/list", " # a@b.c | $x ^ * ||ads^$third-party"}
+	c18Comments = []string{"", "#c", " #c", "\t#c", " # c x", " ## c", "#", " #", "  # 0.0.0.0 other.test", " # see https://example.com/list", " # a@b.c | $x ^ * ||ads^$third-party",
+		// longer than the 4 KiB read buffer, with a tail that is host syntax on its own
+		" # " + strings.Repeat("-", 4090) + " 0.0.0.0 ghost.test"}
 	c18Trailing = []string{"", " ", "\t "}
 )
 
@@ -53,6 +56,7 @@ func c18Probes(names []string) []string {
 		add("sub." + n)
 	}
 	add("other.test")
+	add("ghost.test")
 	add("c")
 	hA, hB := c18Collide()
 	add(hA)
@@ -156,13 +160,16 @@ func init() {
 			maxNames = 4
 		}
 		hA, _ := c18Collide()
-		nameAlpha := append(append([]string{}, c18Names...), hA)
+		nameAlpha := append(append([]string{}, c18Names...), hA, "ad_server.test", "printer.lan.1")
 		build := func(nameAlpha []string, nn int, seps []string) {
 			for _, addr := range c18Addrs {
 				if addr == "" && nn != 1 {
 					continue
 				}
 				enum.Sequences(len(nameAlpha), nn, func(ns []int) bool {
+					if addr == "" && !filterutil.IsDomainName(nameAlpha[ns[0]]) {
+						return true // the bare-domain form is only defined for domain names
+					}
 					for _, sep := range seps {
 						names := make([]string, nn)
 						for i, k := range ns {
@@ -214,7 +221,7 @@ func init() {
 		})
 		c.Run.Set("evaluations", int64(len(lines)))
 		c.Run.Set("distinct_nontrivial", int64(len(lines)))
-		c.Run.Set("rule", fmt.Sprintf("grammar expansion: 7 address forms (incl. bare domain) x 4 separators x name sequences of length 1..%d over 3 names x 11 comment forms x 3 trailing blanks (+ mixed separators; thorough: 5..8 names over 2 names); every line distinct; each through NewRule, NewHostRule, HostRule.Match on listed/truncated/extended names and (quick: every third line) a one-line DNSEngine", maxNames))
+		c.Run.Set("rule", fmt.Sprintf("grammar expansion: 7 address forms (incl. bare domain) x 4 separators x name sequences of length 1..%d over 3 names x 12 comment forms x 3 trailing blanks (+ mixed separators; thorough: 5..8 names over 2 names); every line distinct; each through NewRule, NewHostRule, HostRule.Match on listed/truncated/extended names and (quick: every third line) a one-line DNSEngine", maxNames))
 		c.Run.Set("exhaustive", exhaustive)
 		c.Run.Assumption("a double '#' is generated only after a space (otherwise the line is element-hiding syntax)")
 	})
